@@ -360,6 +360,23 @@ class Layout:
         if all(x.kind == "lit" for x in s.segs):
             text = "".join(x.text for x in s.segs)
             return AStr.lit(text[lo:hi])
+        # fixed-offset layout cut on segment boundaries (literals may be cut anywhere)
+        if all(x.wlo == x.whi for x in s.segs) and lo >= 0 and (hi is None or hi >= 0):
+            out, pos = [], 0
+            end = whi if hi is None else min(hi, whi)
+            for seg in s.segs:
+                a, b = pos, pos + seg.wlo
+                pos = b
+                if b <= lo or a >= end:
+                    continue
+                if a >= lo and b <= end:
+                    out.append(seg)
+                elif seg.kind == "lit":
+                    out.append(Seg("lit", text=seg.text[max(lo - a, 0): end - a], clo=0, chi=0))
+                    out[-1].clo = out[-1].chi = out[-1].wlo = out[-1].whi = len(out[-1].text)
+                else:
+                    return Opaque(f"slice [{lo}:{hi}] cuts through field {seg.src}")
+            return AStr(out)
         return Opaque(f"slice [{lo}:{hi}] of a multi-segment string {s!r}")
 
     def call(self, st, node):
@@ -505,11 +522,14 @@ class Layout:
             if isinstance(v, Src):
                 res = []
                 for c in self.case_of(st, v.key):
-                    if not c.concrete:
-                        raise AnalysisError(f"layout: truth test on abstract value {v.key}")
                     s2 = st.fork()
                     s2.refine[v.key] = c
-                    res.append((s2, bool(c.value)))
+                    if c.concrete:
+                        res.append((s2, bool(c.value)))
+                    elif c.numbers is None and c.lo is not None and c.lo >= 1:
+                        res.append((s2, True))  # a non-empty string
+                    else:
+                        raise AnalysisError(f"layout: truth test on abstract value {v.key}")
                 return res
             if isinstance(v, (bool, int, str)) or v is None:
                 return [(st, bool(v))]
